@@ -45,3 +45,31 @@ Example prog2_recycles :
   | None => False
   end.
 Proof. vm_compute. repeat split; reflexivity. Qed.
+
+(* degree 2, a free list of two nodes: Clear(true) on the original right after Clone releases nothing (every node is
+   shared, none is owned by the original's new context) and the clone keeps its eight items; the clone then copies a
+   path by writing, and its Clear(true) releases exactly nodes it owns - two of them, then the list is full; a third
+   tree made on the same free list and the cleared original then take these two nodes (the frontier does not move) *)
+Definition prog3a : list hop := map (ins 0) [1; 2; 3; 4; 5; 6; 7; 8] ++ [HClone 0; HClear 0 true].
+Definition prog3b : list hop := [ins 1 9; ins 1 10; HClear 1 true].
+Definition prog3c : list hop := [HNew; ins 2 50; ins 2 51; ins 0 11].
+Example prog3_clear :
+  match h_run 2 (world_init 2) prog3a with
+  | Some (w1, _) =>
+      match h_run 2 w1 prog3b with
+      | Some (w2, _) =>
+          match h_run 2 w2 prog3c, f_run 2 [iempty] (prog3a ++ prog3b ++ prog3c) with
+          | Some (w3, _), Some (ts, _) =>
+              fl (wst w1) = [] /\
+              map (fun hd => option_map itree_list (habs (hp (wst w1)) hd)) (whs w1)
+                = [Some []; Some [(1,101); (2,102); (3,103); (4,104); (5,105); (6,106); (7,107); (8,108)]] /\
+              (length (fl (wst w2)) = 2 /\ nxt (wst w3) = nxt (wst w2) /\ fl (wst w3) = [])%nat /\
+              map (habs (hp (wst w3))) (whs w3) = map Some ts /\
+              map itree_list ts = [[(11,111)]; []; [(50,150); (51,151)]]
+          | _, _ => False
+          end
+      | None => False
+      end
+  | None => False
+  end.
+Proof. vm_compute. repeat split; reflexivity. Qed.
